@@ -79,7 +79,7 @@ def gen_e2e(r, tier):
             for _ in range(n if feed != "src" else max(2, n // 2)):
                 nsh = r.rng(1, 5)
                 rows = progen.rows(r, 150 if r.chance(1, 4) else 24, keys=r.choice([3, 8, 40]))
-                src = "N0=const %d %s" % (nsh, rows) if r.chance(2, 3) else "N0=reader %d %d %s" % (nsh, r.rng(1, 5), rows)
+                src = "N0=const %d %s" % (nsh, rows) if r.chance(2, 3) else "N0=reader %d %d %s" % (nsh, r.rng(1, 5) + (10 if r.chance(1, 3) else 0), rows)
                 cfg = r.choice(E2E_CFGS)
                 k = op.count("%s")
                 if feed == "src":
